@@ -43,21 +43,29 @@ class DeadlockError(RuntimeError):
 # call_later(loop.time() + x) instead of call_at(...) is invisible on a clock that starts at 0.  A multiple of 1/1024 s far from
 # zero (three days) keeps every model time (multiples of 1/1024 s) exactly representable.
 CLOCK_BASE = 259200.0
+# ... and the loops of one process share one monotonic clock in real life: a later loop never reads an earlier time than a loop
+# that ran before it (module-level state of the library keyed by time would otherwise meet a clock that went backwards).
+# Each new loop starts at the next multiple of 1024 s after the time the previous one had reached (times stay small, so the
+# rounding error of base + offset stays far below the loop's clock resolution, set to 2^-26 s below).
+_last_loop = [None]
 
 
 class VLoop(asyncio.SelectorEventLoop):
     """SelectorEventLoop whose clock is virtual: select(timeout) advances the clock by timeout.
-    loop._vt is the time since the start of the run; loop.time() = CLOCK_BASE + loop._vt."""
+    loop._vt is the time since the start of the run; loop.time() = loop.base + loop._vt."""
 
     def __init__(self):
         self._vt = 0.0
+        prev = _last_loop[0]
+        self.base = CLOCK_BASE if prev is None else float((int(prev.time()) // 1024 + 2) * 1024)
+        _last_loop[0] = self
         super().__init__(_Sel(self))
-        self._clock_resolution = 1e-9
+        self._clock_resolution = 2.0 ** -26
         self.after_callback = None
         self.before_callback = None
 
     def time(self):
-        return CLOCK_BASE + self._vt
+        return self.base + self._vt
 
     # pending (non cancelled) timers: list of (when, callback name)
     def armed_timers(self):
@@ -66,11 +74,11 @@ class VLoop(asyncio.SelectorEventLoop):
             if not h._cancelled:
                 cb = h._callback
                 name = getattr(cb, "__qualname__", None) or getattr(getattr(cb, "func", None), "__qualname__", None) or repr(cb)
-                out.append((h._when - CLOCK_BASE, name))
+                out.append((h._when - self.base, name))
         return sorted(out)
 
     def next_timer(self):
-        ts = [h._when - CLOCK_BASE for h in self._scheduled if not h._cancelled]
+        ts = [h._when - self.base for h in self._scheduled if not h._cancelled]
         return min(ts) if ts else None
 
 
@@ -103,7 +111,7 @@ async def drain(loop, limit=10000):
 async def advance(loop, to=None, by=None):
     """Advance virtual time (firing due timers in order, draining after each)."""
     # `to` is a loop time (as returned by loop.time()); `by` is a duration
-    target = loop._vt + by if by is not None else to - CLOCK_BASE
+    target = loop._vt + by if by is not None else to - loop.base
     while True:
         nt = loop.next_timer()
         if nt is None or nt > target:
@@ -141,6 +149,9 @@ class FakeSocket:
 
     def fileno(self):
         return 99 if not self.closed else -1
+
+
+FEED_MODE = [0]      # 0: bytes; 1: one bytearray reused for every read; 2: memoryview slices of one pool (set per story by the harness)
 
 
 class SimTransport(asyncio.Transport):
@@ -205,8 +216,25 @@ class SimTransport(asyncio.Transport):
         """The device's bytes arrive (one data_received call)."""
         if self.closing:
             return "ignored"
+        # what the protocol is handed belongs to the transport: bytes, or a receive buffer that is reused for the next read
+        mode = FEED_MODE[0]
+        arg, scrub = data, None
+        if mode == 1:
+            buf = self.__dict__.setdefault("_rx_bytearray", bytearray())
+            del buf[:]
+            buf += data
+            arg, scrub = buf, buf
+        elif mode == 2:
+            pool = self.__dict__.setdefault("_rx_pool", bytearray(1 << 17))
+            if len(data) <= len(pool):
+                pool[:len(data)] = data
+                arg, scrub = memoryview(pool)[:len(data)], pool
         try:
-            self.protocol.data_received(data)
+            self.protocol.data_received(arg)
+            if scrub is not None:
+                if isinstance(arg, memoryview):
+                    arg.release()
+                scrub[:len(data)] = b"\xee" * len(data)
         except (SystemExit, KeyboardInterrupt):
             raise
         except BaseException as exc:  # Fatal error: protocol.data_received() call failed.
